@@ -142,6 +142,8 @@ def gen_c15(tier, R, off):
             out.append(bi(off, n, [s(t), s(x)]))
         if R.random() < 0.3:
             out.append(f"(poscoh _ {s(t)})")
+    out += [c for c in sized_cases(tier, R, off) if c.startswith("(poscoh") or any(k in c for k in (" 97 116)", " 99 111 112 121)", " 105 110 115 101 114 116)", " 108 101 110 103 116 104)", " 114 101 118 101 114 115 101)",
+            " 102 105 110 100)", " 99 111 117 110 116)", " 117 112 112 101 114 99 97 115 101)", " 117 110 105 113 117 101)", " 99 111 110 116 97 105 110 115)"))]
     return out
 
 
@@ -214,6 +216,7 @@ def gen_c17(tier, R):
         out.append(f"(mathref _ {num(rnd_double(R))})")
     for x in NUMS + [float(i) for i in range(-40, 41)] + [2.0**52 + 1, 2.0**53 - 1, -2.0**53 + 1, 1e15 + 1, -1e15 - 1]:
         out.append(f"(mathref _ {num(x)})")
+    out += [c for c in sized_cases(tier, R) if " 102 108 111 97 116)" in c or " 105 110 116)" in c]
     return out
 
 
@@ -382,6 +385,49 @@ def gen_c13(tier, R):
             out.append(bi(1, "max", [a]))
             out.append(bi(1, "min", [a]))
             out.append(bi(1, "max", els) if els else bi(1, "max", []))
+    out += [c for c in sized_cases(tier, R) if any(k in c for k in ("(sortlaws", " 115 111 114 116)", " 109 97 120)", " 109 105 110)"))]
+    return out
+
+
+def sized_cases(tier, R, off=1):
+    """sizes: the collection builtins on arrays and texts of n members / characters for n around the usual thresholds - numeric strings among numbers (sort / min / max / unique must not switch rules
+    with the length), pairs that are `=` across kinds at both ends of a long array (unique), multi-byte characters at the 32- and 64-byte boundaries of long texts (positions), extreme counts and
+    positions on long sources (copy / insert / at)"""
+    from gen.trees import SIZES
+    out = []
+    for n in SIZES:
+        digits = [s(str((7 * i) % (n + 3))) for i in range(n)]                  # numeric strings: '10' < '9' as texts
+        nums_ = [num(float((7 * i) % (n + 3))) for i in range(n)]
+        words = [s(chr(97 + (5 * i) % 26) + chr(97 + (11 * i) % 26)) for i in range(n)]
+        crossk = [num(float(i + 2)) for i in range(n - 2)] + [num(1.0), s("1")]   # 1 and '1' meet at the far end
+        crossk2 = [num(1.0)] + [num(float(i + 2)) for i in range(n - 2)] + [b(True)]
+        zeros = [num(float(i + 1)) for i in range(n - 2)] + [num(0.0), num(-0.0)]
+        for els in (digits, nums_, words):
+            a = arr(*els)
+            out.append(bi(off, "sort", [a])); out.append(bi(off, "max", [a])); out.append(bi(off, "min", [a])); out.append(f"(sortlaws _ {a})")
+            out.append(bi(off, "unique", [a])); out.append(bi(off, "reverse", [a])); out.append(bi(off, "length", [a]))
+        for els in (crossk, crossk2, zeros, digits + [num(9.0)]):
+            a = arr(*els)
+            out.append(bi(off, "unique", [a])); out.append(bi(off, "contains", [a, s("1")])); out.append(bi(off, "count", [a, b(True)])); out.append(bi(off, "find", [a, s("1")]))
+        base = arr(*nums_)
+        for st in (num(0.0), num(1.0), num(float(n - 1)), num(float(n)), num(float(n + 1))):
+            for cnt in (num(0.0), num(1.0), num(float(n)), num(1e300), num(INF), num(2.0**64), num(2.0**63)):
+                out.append(bi(off, "copy", [base, st, cnt]))
+            out.append(bi(off, "at", [base, st])); out.append(bi(off, "insert", [base, s("x"), st]))
+        for ch in ("é", "€", "😀", "e\u0301"):
+            for k in (0, 30, 31, 32, 33, 62, 63, 64, n - 1):
+                if 0 <= k < n:
+                    t = "abcdefghij" * (n // 10 + 1)
+                    t = t[:k] + ch + t[k + len(ch):n]
+                    ts = s(t)
+                    out.append(f"(poscoh _ {ts})")
+                    for i in sorted({1, k, k + 1, k + 2, n - 1, n, n + 1}):
+                        out.append(bi(off, "at", [ts, num(float(i))])); out.append(bi(off, "copy", [ts, num(float(i)), num(3.0)])); out.append(bi(off, "insert", [ts, s("|"), num(float(i))]))
+                    out.append(bi(off, "copy", [ts, num(2.0), num(1e300)])); out.append(bi(off, "length", [ts])); out.append(bi(off, "reverse", [ts]))
+                    out.append(bi(off, "find", [ts, s(ch)])); out.append(bi(off, "count", [ts, s("a")])); out.append(bi(off, "uppercase", [ts]))
+        # float / int of long texts: the digits behind the 17th decide
+        for txt in ("9007199254740993." + "0" * max(1, n - 18) + "1", "0.1" + "0" * (n - 3), "1" + "0" * (n - 1), "0." + "0" * (n - 3) + "7", "-" + "123456789" * (n // 9 + 1)):
+            out.append(bi(off, "float", [s(txt[:n] if not txt.endswith("1") else txt)])); out.append(bi(off, "int", [s(txt[:n])]))
     return out
 
 
@@ -480,6 +526,7 @@ def gen_c09(tier, R, off):
         if sc is not None:
             out.append(("(script _ " if off == 1 else "(script0 _ ") + " ".join(str(ord(c)) for c in sc) + ")")
     out += gen_composite_scripts(tier, R, off)
+    out += [c for c in sized_cases(tier, R, off) if c.startswith("(bi ")]
     return out
 
 
@@ -569,6 +616,7 @@ def gen_c14(tier, R):
         for _ in range(40 if tier == 'quick' else 2000):
             out.append(bi(1, n, [R.choice(POOL) for _ in range(R.choice([2, 2, 3]))]))
     out += gen_c14_neighbours(tier, R, names)
+    out += [c for c in sized_cases(tier, R) if c.startswith("(bi ")]
     return out
 
 
